@@ -87,3 +87,43 @@ Theorem canon_norm : forall s d, is_leaf s = false -> canon s (norm s d) = canon
 Proof.
   intros s d Hl. unfold norm. rewrite canon_fill, canon_pruned by exact Hl. apply canon_fill.
 Qed.
+
+(** ** [dnode_eqb] is reflexive, so equal canonical forms pass the oracle's comparison *)
+From Coq Require Import Lia.
+From YV Require Import Base.Wrap Val.Proofs.
+
+Lemma value_eqb_refl : forall v, value_eqb v v = true.
+Proof.
+  intros v. unfold value_eqb, equal_impl. rewrite fmt_eqb_refl.
+  destruct v; cbn [cmp_impl].
+  - rewrite fmt_eqb_refl. unfold cmp3. rewrite Z.ltb_irrefl. reflexivity.
+  - unfold dec_cmp, cmp3. rewrite Z.ltb_irrefl. reflexivity.
+  - replace (lex_cmp s s) with 0%Z by (symmetry; apply lex_cmp_eq; reflexivity). reflexivity.
+  - replace (lex_cmp s s) with 0%Z by (symmetry; apply lex_cmp_eq; reflexivity). reflexivity.
+  - rewrite Bool.eqb_reflx. reflexivity.
+  - rewrite Z.sub_diag. reflexivity.
+  - replace (lex_cmp label label) with 0%Z by (symmetry; apply lex_cmp_eq; reflexivity). reflexivity.
+Qed.
+
+Lemma ident_eqb_refl : forall a, ident_eqb a a = true.
+Proof. intros a. unfold ident_eqb, bytes_eqb. replace (lex_cmp a a) with 0%Z by (symmetry; apply lex_cmp_eq; reflexivity). reflexivity. Qed.
+
+Fixpoint lval_eqb_refl (v : lval) : lval_eqb v v = true.
+Proof.
+  destruct v as [x| |names|items]; cbn [lval_eqb].
+  - apply value_eqb_refl.
+  - reflexivity.
+  - induction names as [|n names IH]; [reflexivity|]. rewrite ident_eqb_refl. exact IH.
+  - induction items as [|i items IH]; [reflexivity|]. rewrite (lval_eqb_refl i). exact IH.
+Qed.
+
+Fixpoint dnode_eqb_refl (d : dnode) : dnode_eqb d d = true.
+Proof.
+  destruct d as [v|c|rows]; cbn [dnode_eqb].
+  - apply lval_eqb_refl.
+  - induction c as [|[x|] c IH]; [reflexivity | |exact IH]. rewrite (dnode_eqb_refl x). exact IH.
+  - induction rows as [|r rows IH]; [reflexivity|]. rewrite (dnode_eqb_refl r). exact IH.
+Qed.
+
+Theorem norm_same_tree : forall s d, is_leaf s = false -> same_tree s (norm s d) d = true.
+Proof. intros s d Hl. unfold same_tree. rewrite (canon_norm s d Hl). apply dnode_eqb_refl. Qed.
